@@ -237,6 +237,46 @@ Theorem deadline_shrinks_client : forall opts default parent now,
 Proof. exact client_deadline_shrinks. Qed.
 Print Assumptions deadline_shrinks_client.
 
+(* calls_isolated.  For every list of calls (own work script each) going through one
+   interceptor instance (or through fx.DoWithTimeout) and EVERY schedule interleaving
+   the work, Done and select threads of all of them — in particular the work of a
+   timed-out call returning or panicking while later calls are in flight — the
+   component of each call is exactly the single-call run under that call's own events:
+   what it returns is its OWN result, its OWN timeout error or its OWN panic. *)
+Theorem calls_isolated : forall ws sched i w,
+  nth_error ws i = Some w ->
+  exists s, nth_error (wmrun (wminit ws) sched) i = Some s /\
+            s = wrun (winit w) (proj i sched) /\
+            match wsst s with
+            | OWait => True
+            | ORet r e => wend w = WRet r e \/ (wdk s <> None /\ has_check w /\ (r, e) = wbail w)
+            | OTimeout k => wdk s = Some k
+            | OPanic p => wend w = WPanic p
+            end.
+Proof. exact calls_isolated_lemma. Qed.
+Print Assumptions calls_isolated.
+
+Theorem call_step_frame : forall ss i e j,
+  i <> j -> nth_error (wmstepT ss (i, e)) j = nth_error ss j.
+Proof. exact wmstep_frame. Qed.
+Print Assumptions call_step_frame.
+
+Theorem call_result_final_among_calls : forall ws sched1 sched2 i w s1,
+  nth_error ws i = Some w ->
+  nth_error (wmrun (wminit ws) sched1) i = Some s1 -> wsst s1 <> OWait ->
+  exists s2, nth_error (wmrun (wminit ws) (sched1 ++ sched2)) i = Some s2 /\ wsst s2 = wsst s1.
+Proof. exact isolated_result_final. Qed.
+Print Assumptions call_result_final_among_calls.
+
+(* call A times out with its work parked; call B is in flight when A's work panics:
+   B still returns B's own result, A keeps DeadlineExceeded *)
+Example ex_two_calls :
+  let ws := [mkW [WWork] (0, 0) (WPanic 15); mkW [WWork] (0, 0) (WRet 21 0)] in
+  let sched := [(0, EH); (0, ED KDeadline); (0, ES BTimeout); (1, EH); (0, EH); (1, EH); (1, ES BDone)]%nat in
+  map wsst (wmrun (wminit ws) sched) = [OTimeout KDeadline; ORet 21 0] /\
+  map wst (wmrun (wminit ws) sched) = [WPanicked 15; WDone 21 0].
+Proof. vm_compute. split; reflexivity. Qed.
+
 (* ================================================================== *)
 (* non-vacuity: concrete runs reaching each outcome                     *)
 
